@@ -79,7 +79,7 @@ TRIAGE = [
     (r"^vm::opcode::<Vm>::decompile", r"unwrap", DIAG),
     (r"^vm::run::<Vm>::trace_instruction$", r"index", "the slice bc[ip.1..] of the lambda %ip names: ip.1 <= bc.len() — it is advanced one cell at a time by read_opcode / read_operand, which stop at the end, and parked at bc.len() after a failure (R07j)"),
     (r"^vm::run::<Vm>::trace_instruction$", r"unwrap", "%ip.0 names a Lambda whenever run_one is entered (prepare_eval installs one; CALL / RET only ever store lambdas there): as_lambda succeeds", r"as_lambda"),
-    (r"^vm::run::<Vm>::run::", r"unwrap", "run_count(usize::MAX) returns Ok(None) only after 2^64-1 instructions"),
+    (r"^vm::run::<Vm>::run(::|$)", r"unwrap", "run_count(usize::MAX) returns Ok(None) only after 2^64-1 instructions"),
     (r"^vm::run::<Vm>::run_one$", r"Overflow\(Sub\)", INV_FRAME + "; VARARG is emitted only for lambdas whose args include the rest parameter"),
     (r"^vm::run::<Vm>::(load_arg|build_lexical_environment|load_operand|store_operand)$", r"Overflow", INV_FRAME),
     (r"^vm::run::<Vm>::lambda$", r"unwrap", INV_IP),
